@@ -97,6 +97,9 @@ func init() {
 		os.Stdout.Write(b)
 		os.Exit(0)
 	}
+	if os.Args[2] == "helper" {
+		helperMain(os.Args[3:])
+	}
 	if os.Getenv(nsEnv) == "" {
 		exe, err := os.Executable()
 		if err != nil {
